@@ -444,6 +444,10 @@ src_stm
         {
             cmd := strings.TrimSpace($<intern>3.unquote($3))
             stagecodeParts := strings.Fields(cmd)
+            if len(stagecodeParts) == 0 {
+                // A blank command is reported by SrcParam.compile.
+                stagecodeParts = []string{""}
+            }
             $$ = &SrcParam{
                 Node: NewAstNode($<loc>1),
                 Lang: StageLanguage($<intern>2.Get($2)),
